@@ -399,7 +399,9 @@ func c20Damage(ld *c20Load) (pieces []c20Item, damaged int, complete []c20Item, 
 	case "stray", "noncallable":
 		bad := []string{"foo bar.", "p1(1 2).", "p2(a,).", ") .", "p3 :- .", "p4(1, s)) .", "[a|b|c].", "p1(1, s) :- (a."}
 		if ld.Fault == "noncallable" {
-			bad = []string{"42.", "foo :- 1.", "p1(1, s) :- 2.", "3.14.", "p2(1, s) :- true, 3, true.", "p3(1, s) :- 4, true.", "foo :- a, 6, b."}
+			bad = []string{"42.", "foo :- 1.", "p1(1, s) :- 2.", "3.14.", "p2(1, s) :- true, 3, true.", "p3(1, s) :- 4, true.", "foo :- a, 6, b.",
+				// a number as a goal inside nested control constructs is no more callable than at the top of the body
+				"foo :- (a, 7), b.", "p1(1, s) :- (true -> 8 ; true).", "p2(1, s) :- (9 ; true), true.", "p3(1, s) :- true, (true, (true ; 10))."}
 		}
 		at := ld.Pos % (len(items) + 1)
 		its := append(append(append([]c20Item(nil), items[:at]...), c20Item{Kind: "bad", Text: bad[ld.Pos/(len(items)+1)%len(bad)]}), items[at:]...)
